@@ -5,6 +5,7 @@ import RV.Proofs.WHKepler
 import RV.Proofs.WHLink
 import RV.Proofs.WHDH
 import RV.Proofs.WHInt
+import RV.Proofs.TraceCom
 /-
   C04 — isolated systems conserve momentum, angular momentum and (as advertised) energy;
   the diagnostics return the defined quantities.
@@ -443,6 +444,27 @@ theorem c04_dh_kepler_and_com (N : Nat) (m : Nat → K) (τ : K) (s s' : DS K) (
   ⟨keplerDH_conserves N m s s' hR hV h, comDH_conserves N m τ s⟩
 
 /-! ### merging collisions -/
+
+/-! ### TRACE: the centre of mass across a rejected step -/
+
+/-- centre-of-mass bookkeeping of `reb_integrator_trace_part2` (interaction/jump/Kepler/COM sequence):
+    the stored centre of mass after the step is `com + dt·v_com` of the particles the step started
+    from — the same for an accepted and for a rejected-and-redone step, and independent of what
+    `ri_trace.com_pos` held before (a previous step, a restore, a new simulation, a user shift). -/
+theorem c04_trace_rejected_step_com (dt : K) (nAct : Nat) (rejected : Bool) (stale : V3 K)
+    (ps : Array (Part K)) :
+    RV.TraceCom.part2Com dt nAct rejected stale ps = RV.TraceCom.comStep dt (RV.TraceCom.dhCom nAct ps) :=
+  RV.TraceCom.part2Com_eq dt nAct rejected stale ps
+
+/-- … and that is uniform motion: total mass × stored centre of mass = `Σ m x + dt Σ m v`, the
+    stored velocity is `Σ m v / Σ m` (sums over the particles `inertial_to_dh` uses). -/
+theorem c04_trace_step_com_uniform (dt : K) (nAct : Nat) (rejected : Bool) (stale : V3 K)
+    (ps : Array (Part K)) (hM : ∑ i ∈ Finset.Ico 0 nAct, mOf ps i ≠ 0) :
+    (∑ i ∈ Finset.Ico 0 nAct, mOf ps i) • (RV.TraceCom.part2Com dt nAct rejected stale ps).pos
+      = ∑ i ∈ Finset.Ico 0 nAct, mOf ps i • xOf ps i + dt • ∑ i ∈ Finset.Ico 0 nAct, mOf ps i • vOf ps i
+    ∧ (∑ i ∈ Finset.Ico 0 nAct, mOf ps i) • (RV.TraceCom.part2Com dt nAct rejected stale ps).vel
+      = ∑ i ∈ Finset.Ico 0 nAct, mOf ps i • vOf ps i :=
+  RV.TraceCom.part2Com_uniform dt nAct rejected stale ps hM
 
 /-- `reb_collision_resolve_merge`: the survivor carries the summed mass, and its momentum and
     mass-weighted position are the sums of the pair's (so total `M`, `P`, `Σ m x` — hence the
